@@ -161,9 +161,16 @@ class CallModels:
             if isinstance(o, OContainer) and self.interface is not None:
                 return self.interface.container_set(eng, b, o, key, v, st, 'item')
             if isinstance(o, ODict):
-                items = dict(o.items)
-                items[eng.hashable(key)] = v
-                st.put(b, ODict(items))
+                if o.items is not None:
+                    try:
+                        items = dict(o.items)
+                        items[eng.hashable(key)] = v
+                        st.put(b, ODict(items))
+                        return [(st, NONE)]
+                    except OutOfReach:
+                        o = self.symbolic_dict(eng, o, st)
+                kt = eng.to_dyn(key, st)
+                st.put(b, ODict(has=t.T('VMapHas', 'store', (o.has, kt, t.TRUE)), get=t.T('VMapGet', 'store', (o.get, kt, eng.to_dyn(v, st)))))
                 return [(st, NONE)]
             if isinstance(o, OBytearray):
                 iv, ok = eng.as_int(key, st)
@@ -203,10 +210,22 @@ class CallModels:
             if isinstance(o, OContainer) and self.interface is not None:
                 return self.interface.container_getitem(eng, b, o, k, st)
             if isinstance(o, ODict):
-                hk = eng.hashable(k)
-                if hk in o.items:
-                    return [(st, o.items[hk])]
-                return eng.raise_(st, 'KeyError', origin='dict key')
+                if o.items is not None:
+                    try:
+                        hk = eng.hashable(k)
+                        if hk in o.items:
+                            return [(st, o.items[hk])]
+                        return eng.raise_(st, 'KeyError', origin='dict key')
+                    except OutOfReach:
+                        o = self.symbolic_dict(eng, o, st)
+                kt = eng.to_dyn(k, st)
+                a, c = eng.fork(st, t.T(t.BOOL, 'select', (o.has, kt)))
+                out = []
+                if a is not None:
+                    out.append((a, VDyn(t.T(t.VAL, 'select', (o.get, kt)))))
+                if c is not None:
+                    out.extend(eng.raise_(c, 'KeyError', origin='dict key'))
+                return out
             if isinstance(o, OList):
                 if o.concrete:
                     iv, ok = eng.as_int(k, st)
@@ -236,6 +255,15 @@ class CallModels:
                 return r
         raise OutOfReach('index into %r' % (b,))
 
+    def symbolic_dict(self, eng, o, st):
+        has = t.const_arr(t.FALSE, 'VMapHas')
+        get = fresh('dictvals', 'VMapGet')
+        for k, v in o.items.items():
+            kt = eng.to_dyn(eng.from_const(k[1] if len(k) > 1 else None, st), st)
+            has = t.T('VMapHas', 'store', (has, kt, t.TRUE))
+            get = t.T('VMapGet', 'store', (get, kt, eng.to_dyn(v, st)))
+        return ODict(has=has, get=get)
+
     def list_elem(self, eng, o, i):
         if o.ekind == 'int':
             return VInt(t.select(o.arr, i))
@@ -246,7 +274,7 @@ class CallModels:
     def seq_index(self, eng, st, k, ln, elem, what):
         iv, ok = eng.as_int(k, st)
         if iv is None:
-            raise OutOfReach('%s index of kind %s' % (what, k.kind))
+            return eng.raise_(st, 'TypeError', origin='%s indices must be integers' % what)
 
         def go(st1):
             out = []
@@ -474,6 +502,8 @@ class CallModels:
             o = st.get(container)
             if isinstance(o, OList) and o.concrete:
                 return [(st, VBool(t.or_(*[eng.pyeq(item, x, st) for x in o.items])))]
+            if isinstance(o, ODict) and o.items is None:
+                return [(st, VBool(t.T(t.BOOL, 'select', (o.has, eng.to_dyn(item, st)))))]
             if isinstance(o, ODict):
                 try:
                     return [(st, VBool(Bc(eng.hashable(item) in o.items)))]
